@@ -1,5 +1,6 @@
 import PbProofs.Dft
 import PbProofs.Shift
+import PbModel.Gen.Shift
 
 /-! # C03 — time_shift is a band-limited delay with exact zero-fill and no wrap-around
 
@@ -87,5 +88,31 @@ theorem C03_crop_eq (Nn n : Nat) (hn : n < Nn) (shifts : List Rat) :
 
 example : zeroFill 8 [2, 2] [2] [3/2, -5/2] = [([0,0],0,2), ([0,1],0,2), ([1,0],5,8), ([1,1],5,8)] := by
   decide +kernel
+
+/-- Tie to the source: the body of `time_shift`'s zero-fill loop, translated symbolically on every run
+(`Gen/Shift.lean`), is the model's: for an element shift `a` the region `[⌊a⌋:]` is emptied when `a < 0` and
+`[:⌈a⌉]` otherwise, the crop bounds are updated by exactly one step of `shiftBounds`, starting from `(0, 0)`, and the cropped result is `x[start:max(len(x) + stop, 0)]`; the phase
+factor is `exp(−2πi · …)` of the listed factors. -/
+theorem C03_source_loop :
+    (∀ (N : Nat) (a : Rat), zeroInterval N a =
+      if (Gen.Shift.tsRegion a).1 = true then ((adj N (some (Gen.Shift.tsRegion a).2) 0).toNat, N)
+      else (0, (adj N (some (Gen.Shift.tsRegion a).2) N).toNat)) ∧
+    (∀ (a : Rat) (rest : List Rat),
+      shiftBounds (a :: rest) = Gen.Shift.tsStep a (shiftBounds rest).1 (shiftBounds rest).2) ∧
+    Gen.Shift.tsInit = "(0, 0)" ∧ Gen.Shift.tsCrop = "x[start:max(len(x) + stop, 0)]" ∧
+    Gen.Shift.tsPhaseSign = -1 ∧ Gen.Shift.tsPhaseFactors = ["f", "shift"] := by
+  refine ⟨?_, ?_, by decide, by decide, by decide, by decide⟩
+  · intro N a
+    by_cases h : a < 0
+    · have h' : ¬ (0 ≤ a) := not_le.mpr h
+      simp [zeroInterval, Gen.Shift.tsRegion, Crop.floor, Crop.ceil, h, h']
+    · have h' : 0 ≤ a := not_lt.mp h
+      simp [zeroInterval, Gen.Shift.tsRegion, Crop.floor, Crop.ceil, h, h']
+  · intro a rest
+    by_cases h : a < 0
+    · have h' : ¬ (0 ≤ a) := not_le.mpr h
+      simp [shiftBounds, Gen.Shift.tsStep, Crop.floor, Crop.ceil, h, h']
+    · have h' : 0 ≤ a := not_lt.mp h
+      simp [shiftBounds, Gen.Shift.tsStep, Crop.floor, Crop.ceil, h, h']
 
 end Pb.C03
